@@ -5,7 +5,9 @@
 // and a stopping thread under a controlled scheduler (preemption bound iterated, then
 // unbounded) on a copy of ctxstack instrumented at check time, with vector-clock race
 // detection, deadlock detection and a linearizability oracle; (3) output suppression
-// after cancellation; (4) ctxreadseeker under cancellation at every call boundary.
+// after cancellation; (4) ctxreadseeker under cancellation at every call boundary;
+// (5) interrupts taken while the evaluation is inside a read of its input that has no
+// data (blocked.go).
 package c20
 
 import (
@@ -46,6 +48,9 @@ func run(r *core.Run) {
 	}
 	if schedShard && (only == "" || only == "cliraw") {
 		cliRawInterrupts(r)
+	}
+	if schedShard && (only == "" || only == "blocked") {
+		blockedReads(r)
 	}
 	if seqShard && (only == "" || only == "seq") {
 		seqBFS(r)
@@ -93,6 +98,17 @@ func replay(r *core.Run, raw json.RawMessage) bool {
 		bad := judgeRepl(c, o)
 		fmt.Printf("  earlier lines %q\n", c.Prefix)
 		fmt.Printf("  REPL depth %d line %q interrupt at write %d (settle %d ms): %+v\n  verdict: %q\n", c.Depth, c.Prog, c.FireAt, c.WaitMs, o, bad)
+		return bad != ""
+	case "blocked-read":
+		var c BlockCase
+		_ = json.Unmarshal(raw, &c)
+		o := runBlocked(c)
+		bad, void := judgeBlocked(c, o)
+		fmt.Printf("  %+v\n  input: opens=%d reads=%d seeks=%d blocking read #%d, interrupt taken inside it=%v, reads after it=%d\n  evaluation: not ended within the patience=%v values=%v enclosing=%q run=%+v\n  verdict: %q void: %q\n",
+			c, o.opens, o.reads, o.seeks, o.eventRead, o.delivered, o.afterRead, o.hung, o.innerVals, o.outerBad, o.repl, bad, void)
+		if st, _ := lastBlockStack.Load().(string); st != "" {
+			fmt.Printf("  trace of the panic:\n%s\n", st)
+		}
 		return bad != ""
 	case "signal":
 		var c SignalCase
